@@ -1,5 +1,6 @@
 """C19 (engine PROD) - batching thresholds, time limit and cancellation."""
 from vlib.engines import prod
+from vlib import tracefuzz
 from vlib.engines.base import drive, run_trace
 
 PROP = "C19"
@@ -17,13 +18,15 @@ class Eng(prod.PRODEngine):
 
 def shard(ctx):
     drive(ctx, Eng, ctx.n(16 * 250, 16 * 5000), min_steps=8, max_steps=70, props={"C19"})
+    # coverage-guided trace search (atheris driving the same Hypothesis driver, fuzz/traces.py)
+    tracefuzz.run(ctx, "c19", 120 if ctx.tier == "quick" else 6000, nshards=2 if ctx.tier == "quick" else 4)
 
 
 def replay(case, ctx):
     run_trace(Eng, case, ctx, props={"C19"})
 
 
-TECHNIQUE = "model-based stateful property testing of the real Producer (batching enabled) + KafkaClient on a simulated cluster: a reference model of the documented batching behaviour (uncancelled queue totals, in-flight flag, tick instants) predicts every dispatch; sends, cancels, ticks, held replies and stop are drawn by Hypothesis"
+TECHNIQUE = "model-based stateful property testing of the real Producer (batching enabled) + KafkaClient on a simulated cluster: a reference model of the documented batching behaviour (uncancelled queue totals, in-flight flag, tick instants) predicts every dispatch; sends, cancels, ticks, held replies and stop are drawn by Hypothesis; plus coverage-guided fuzzing of the same trace driver (atheris/libFuzzer mutating Hypothesis' choice sequence; fuzz/traces.py)"
 RULE = (
     "traces over Producer(batch_send=True) with thresholds every_n in {0,1,2,5}, every_b in {0,10,200}, every_t in {0,0.5,2} (at least one enabled), sends of "
     "arbitrary sizes incl. null messages, cancel of queued / in-flight sends, timer ticks, replies held and released so batches stay in flight, stop; oracle: a "
